@@ -491,6 +491,26 @@ def rule_units(ctx, R):
                 val = roles.of_origin(roles.org.of_rvalue(s["r"], bi, si))
                 rew.append((val, s["span"]["at"]))
     R.check(len(rew) == 1 and rew[0][0] == IDX, "units:point:rewrite", "label targets (command indices) are rewritten to the index of the block that holds the command: %s" % rew)
+    # the rewrite advances one cursor through the table while walking the commands in order: the table must be ordered
+    # by command index (the .1 component) when the walk starts
+    sorts = [(bi, tt) for bi, tt in b.calls() if callee_name(tt["f"], fb).rsplit("::", 1)[-1] in ("sort_by", "sort_unstable_by", "sort_by_key", "sort_unstable_by_key", "sort_by_cached_key", "sort", "sort_unstable") and "State::get_all_point" in roles.of_operand(tt["args"][0], bi)]
+    rew_blocks = [bi for bi, blk in enumerate(b.blocks) for s in blk["stmts"] if s["k"] == "assign" and s["p"]["proj"] and any(isinstance(e, dict) and e.get("n") == "1" for e in s["p"]["proj"])]
+    if R.anchor(len(sorts) == 1, "units:point:sort", "the one sort of the label table before the rewrite sweep (found %d)" % len(sorts)):
+        sb_, st_ = sorts[0]
+        kind = callee_name(st_["f"], fb).rsplit("::", 1)[-1]
+        keys = []
+        for c in fb.closures_of(b):
+            if len(st_["args"]) > 1 and c.name.rsplit("::", 1)[-1] in roles.org.of_operand(st_["args"][1], sb_, "t")[1]:
+                cr = Roles(c, fb, param_roles={i: "P%d" % i for i in range(1, c.argc + 1)})
+                ccfg = normal_cfg(c)
+                for r_ in ccfg.returns:
+                    keys.append(cr.of_origin(cr.org.of_place({"l": 0, "proj": []}, r_, "t")))
+        if "key" in kind:
+            ok = keys == ["P2.1"]
+        else:
+            ok = len(keys) == 1 and keys[0] in ("UNWRAP(PartialOrd::partial_cmp(P2.1,P3.1))", "Ord::cmp(P2.1,P3.1)", "PartialOrd::partial_cmp(P2.1,P3.1)")
+        R.check(ok, "units:point:sorted_by_location", "the label table is sorted by command index (ascending) before the single-cursor rewrite sweep: %s %s" % (kind, keys), st_["span"]["at"])
+        R.check(bool(rew_blocks) and not any(reaches_without(cfg, [0], rb, cut_blocks=[sb_]) for rb in rew_blocks), "units:point:sort_first", "the sort precedes the rewrite on every path", st_["span"]["at"])
     # the restored selection
     for t in find("cur = "):
         r = roles.of_origin(t.args[0])
